@@ -140,10 +140,24 @@ def diagnostics(mods, y, x, nt, levels):
     except Exception:  # pylint: disable=broad-except
       pass
     diag.y = yy
+  elif int(abs(sum(yy)) * 1000) % 4 == 1:
+    # the pre-screening flow: an object without a control series is asked for the estimate, gets another treatment
+    # series, and is asked again BEFORE a control series is attached (the estimate depends on y and corr only)
+    diag = mods['diag'].TBRMMDiagnostics([3.0 * v + (j % 4) ** 2 for j, v in enumerate(yy)], par)
+    try:
+      diag.estimate_required_impact(0.9)
+    except Exception:  # pylint: disable=broad-except
+      pass
+    diag.y = yy
+    try:
+      diag.verif_prescreen = float(diag.estimate_required_impact(0.75))
+    except Exception as e:  # pylint: disable=broad-except
+      diag.verif_prescreen = '%s: %s' % (type(e).__name__, e)
   else:
     diag = mods['diag'].TBRMMDiagnostics(yy, par)
   diag.x = [float(v) for v in x]
   return diag
+
 
 
 def rclose(got, want, rel, unit=0.0):
@@ -189,6 +203,15 @@ def check_calibration(mods, x, y, nt, levels, quant, want, kind, sign, rng):
     out.append(('RequiredImpactIsCalibrated', 'required_impact=%.15g (square %.15g), demanded sign(q_s+q_p=%.6g) and '
                 '(q_s+q_p)^2 PostScaleSq=%.15g' % (ri, ri * ri, qs + qp, want['ri2'])))
     return out, ri
+  pre = getattr(diag, 'verif_prescreen', None)
+  if pre is not None:
+    try:
+      now = float(diag.estimate_required_impact(0.75))
+    except Exception as e:  # pylint: disable=broad-except
+      now = '%s: %s' % (type(e).__name__, e)
+    if (pre != now) if (isinstance(pre, str) or isinstance(now, str)) else not rclose(pre, now, 1e-12):
+      out.append(('EstimateAtOwnCorrelation', 'estimate_required_impact(0.75) before the control series was attached = %r, '
+                  'after = %r (same treatment series)' % (pre, now)))
   if not (rclose(again, ri, 1e-12) and rclose(mirrored, ri, 1e-12)):
     out.append(('EstimateAtOwnCorrelation', 'required_impact=%.15g, estimate_required_impact(corr)=%.15g, '
                 '(-corr)=%.15g' % (ri, again, mirrored)))
